@@ -17,9 +17,14 @@ def run_witness(src, name, timeout=1500):
     wfile = os.path.join(WITNESS_DIR, name + ".rs")
     if not os.path.exists(wfile):
         return None, "no witness file"
-    modrs = os.path.join(src, "src", "tests", "mod.rs")
+    mount = "src/tests/mod.rs"
+    first = open(wfile).readline()
+    mm = re.match(r"// VERIF-MOUNT: (\S+)", first)
+    if mm:
+        mount = mm.group(1)   # witnesses that need private items are mounted as a child of that module
+    modrs = os.path.join(src, mount)
     if not os.path.exists(modrs):
-        return None, "src/tests/mod.rs missing"
+        return None, mount + " missing"
     line = '\n#[cfg(test)] #[path = "%s"] mod verif_witness_%s;\n' % (wfile, name)
     text = open(modrs).read()
     if line not in text:
